@@ -31,6 +31,7 @@ type config struct {
 	// non-default configurations
 	viaExtractRates bool // the rates are supplied per request through the ExtractRates option
 	capacity        int  // >0: Capacity option; the model then also drives a second source
+	extraAmounts    []int64
 }
 
 func (c config) maxPeriod() time.Duration {
@@ -233,7 +234,7 @@ func tpt(r rateSpec) time.Duration { return time.Duration(int64(r.period) / r.av
 
 func alphabet(cfg config, tier string) ([]string, []opDesc) {
 	r0 := cfg.rates[0]
-	amounts := []int64{1, 2, cfg.minBurst(), cfg.maxBurst(), cfg.maxBurst() + 1}
+	amounts := append([]int64{1, 2, cfg.minBurst(), cfg.maxBurst(), cfg.maxBurst() + 1}, cfg.extraAmounts...)
 	var names []string
 	var descs []opDesc
 	seenA := map[int64]bool{}
@@ -478,6 +479,8 @@ func configs(tier string) []config {
 	out = append(out, config{name: "1s:1/1@0s+Capacity(2)", rates: sets[0].rates, capacity: 2})
 	// a fine-grained rate: one token every 250 microseconds (delays far below a millisecond)
 	out = append(out, config{name: "1s:4000/2@0s", rates: []rateSpec{{S, 4000, 2}}})
+	// large magnitudes: an hourly quota of 36 million units (one token every 100 microseconds), requests of millions
+	out = append(out, config{name: "1h:36000000/36000000@0s", rates: []rateSpec{{3600 * S, 36_000_000, 36_000_000}}, extraAmounts: []int64{3_000_000, 9_000_000}})
 	out = append(out, config{name: "2s:1/2@300ms+Capacity(2)", rates: sets[4].rates, phase: 300 * time.Millisecond, capacity: 2})
 	return out
 }
